@@ -2276,6 +2276,34 @@ def _list_updates(repo, mod, fi, name, origin, depth=0, seen=None):
     return updated, problems
 
 
+def locate_hook(repo, server, rwr):
+    """(function holding the call, [the call of the error hook ``hook(text, files)``], name of the file list in
+    restart_with_reloader): the hook is a parameter of restart_with_reloader called with two positional arguments, in
+    restart_with_reloader itself or in a function of the module it hands the hook (and the list) to."""
+    def hook_calls(fi, hook_params):
+        return [c for c in walk_body(fi.node) if isinstance(c, ast.Call) and isinstance(c.func, ast.Name) and c.func.id in hook_params
+                and len(c.args) == 2 and not c.keywords and not assigned_value(fi.node, c.func.id)]
+    owner, hooks = rwr, hook_calls(rwr, rwr.params())
+    X = None
+    if len(hooks) == 1:
+        X = _canon_name(rwr, hooks[0].args[1])
+    elif not hooks:
+        # one level down: restart_with_reloader hands its hook (and its list) to a function of the module
+        for c in walk_body(rwr.node):
+            g = _module_callee(repo, rwr, c)
+            if g is None:
+                continue
+            gps = g.params()
+            handed = [gps[i] for i, a in enumerate(c.args) if isinstance(a, ast.Name) and a.id in rwr.params() and i < len(gps)]
+            hs = hook_calls(g, handed)
+            if len(hs) == 1 and isinstance(hs[0].args[1], ast.Name) and hs[0].args[1].id in gps and \
+                    not assigned_value(g.node, hs[0].args[1].id) and gps.index(hs[0].args[1].id) < len(c.args):
+                back = c.args[gps.index(hs[0].args[1].id)]
+                owner, hooks, X = g, hs, _canon_name(rwr, back)
+                break
+    return owner, hooks, X
+
+
 def _launcher_handover(rep, fs):
     """R20.e: the development server gives the failsafe the error text and the file list the child reported.  The
     constructs are located by role; where they cannot be, the judgement is declined (a note), never guessed."""
@@ -2303,28 +2331,7 @@ def _launcher_handover(rep, fs):
     if rwr is None or not rwr.params():
         rep.notes.append('R20.e declined: restart_with_reloader(error_func) not found')
         return
-
-    def hook_calls(fi, hook_params):
-        return [c for c in walk_body(fi.node) if isinstance(c, ast.Call) and isinstance(c.func, ast.Name) and c.func.id in hook_params
-                and len(c.args) == 2 and not c.keywords and not assigned_value(fi.node, c.func.id)]
-    owner, hooks = rwr, hook_calls(rwr, rwr.params())
-    X = None
-    if len(hooks) == 1:
-        X = _canon_name(rwr, hooks[0].args[1])
-    elif not hooks:
-        # one level down: restart_with_reloader hands its hook (and its list) to a function of the module
-        for c in walk_body(rwr.node):
-            g = _module_callee(repo, rwr, c)
-            if g is None:
-                continue
-            gps = g.params()
-            handed = [gps[i] for i, a in enumerate(c.args) if isinstance(a, ast.Name) and a.id in rwr.params() and i < len(gps)]
-            hs = hook_calls(g, handed)
-            if len(hs) == 1 and isinstance(hs[0].args[1], ast.Name) and hs[0].args[1].id in gps and \
-                    not assigned_value(g.node, hs[0].args[1].id) and gps.index(hs[0].args[1].id) < len(c.args):
-                back = c.args[gps.index(hs[0].args[1].id)]
-                owner, hooks, X = g, hs, _canon_name(rwr, back)
-                break
+    owner, hooks, X = locate_hook(repo, server, rwr)
     if len(hooks) != 1 or X is None or X in rwr.params():
         rep.notes.append('R20.e declined: the call of the error hook (text, files) in restart_with_reloader was not found')
         return
@@ -2374,3 +2381,6 @@ def run(rep):
     _group(rep, _parsed_branch, rep, fs)
     _group(rep, _exception_line_from_end, rep, fs)
     _group(rep, _launcher_handover, rep, fs)
+    from . import c20_launcher
+    _group(rep, c20_launcher.stderr_to_hook, rep, fs)
+    _group(rep, c20_launcher.served_and_taken_down, rep, fs)
